@@ -12,7 +12,7 @@ THEOREMS = ["NakenVerif.C16." + t for t in (
     "macro_body_never_faults", "macro_body_too_long_is_error", "macro_args_never_fault", "macro_args_too_long_is_error",
     "assemble_depth_bounded", "too_many_conditionals_is_error", "too_many_includes_is_error", "expression_depth_bounded",
     "ifdef_parens_bounded", "exit_status_01")] + [
-    "NakenVerif.Reader.caps_fit", "NakenVerif.Reader.macro_caps_fit"]
+    "NakenVerif.Reader.caps_fit", "NakenVerif.Reader.macro_caps_fit", "NakenVerif.Reader.Nest.limits_sane"]
 RULE = ("tk/mp/mx: the real tokens_get / macros_parse / macros_expand_params run in-process (sanitised) on the same bytes as "
         "the Lean model: tokens at every buffer length -4..+9 for 16 token kinds x 8 buffer lengths x 3 flag sets, random "
         "lexer soup incl. bytes 0x00/0x80..0xff, macro tables nested to MAX_NESTED_MACROS-2..+2, self/mutual reference, "
@@ -205,7 +205,7 @@ def oracle(ctx, orc, focus=None):
                                     "expected": "an answer (token stream, error or exit 1)", "observed": a[:400],
                                     "what": "the real reader/macro code died in-process", "replay_line": l})
     # 2. one statement per source, in-process: every CPU with garbage operands, every directive with garbage
-    sweep = G.cpu_garbage(ctx, ctx.scale(60, 1200)) + G.directive_garbage(ctx, ctx.scale(3000, 40000))
+    sweep = G.cpu_garbage(ctx, ctx.scale(150, 1500)) + G.directive_garbage(ctx, ctx.scale(6000, 60000))
     sl = ["c16asm " + nvlib.hexs(s) for _, s in sweep]
     ans = nvlib.run_lines(ctx.harness, sl, timeout=120, shards=64)
     sw = {}
@@ -287,7 +287,7 @@ def canaries(ctx):
 
 def canary_limit(name, nbytes):
     # the same linear rule as for every other input, without the fixed allowance for a loaded machine
-    return 2.0 + 40e-6 * nbytes
+    return 2.0 + 4e-6 * nbytes
 
 
 def replay(ctx, rec):
